@@ -19,7 +19,6 @@ class Probe:
         self.static = []    # (sensor id, first address, count, sensor offset, documented size)
         self.reads = 0
         self.orig_read = gp.ProtocolResponse.read
-        self.orig_map = Inverter._map_response
         probe = self
 
         def read(resp, size):
@@ -39,6 +38,7 @@ class Probe:
             return b
 
         def mapper(response, sensors, *more, **kw):
+            # (an observer: world.wrap_method calls the original afterwards, whatever kind of method it has become)
             cmd = response.command
             first, count = getattr(cmd, 'first_address', None), getattr(cmd, 'value', None)
             if first is not None and count is not None and type(cmd).__name__.startswith('Modbus'):
@@ -51,14 +51,13 @@ class Probe:
                             probe.static.append((s.id_, first, count, s.offset, n))
                         if type(s).__name__ == 'EnumBitmap22':
                             pass
-            return probe.orig_map(response, sensors, *more, **kw)
         gp.ProtocolResponse.read = read
-        Inverter._map_response = staticmethod(mapper)
+        self.restore_map = world.wrap_method(Inverter, '_map_response', mapper)
         return self
 
     def __exit__(self, *a):
         gp.ProtocolResponse.read = self.orig_read
-        Inverter._map_response = staticmethod(self.orig_map)
+        self.restore_map()
 
 
 def _known():
